@@ -65,15 +65,30 @@ def run_corpus(prop, skip=False, seed=0, jobs=16):
             src = src.replace(o, n_)
         mjobs.append((root, "mutant:" + mid, rel, src, [prop]))
     pjobs = [(root, "seeded:" + sid, pth, [prop]) for sid, pth in _seeded_for(prop)]
+    rjobs = [(root, "refactor:" + os.path.basename(os.path.dirname(pth)) + "-" + os.path.basename(pth)[9:-5], pth, [prop])
+             for pth in sorted(glob.glob(os.path.join(VERIF_ROOT, "refactors", "*", "refactor_*.diff")))]
     with Pool(min(jobs, max(1, len(bjobs) + len(mjobs) + len(pjobs)))) as pool:
         bres = pool.map(harness.run_variant, bjobs)
         mres = pool.map(harness.run_variant, mjobs)
         pres = pool.map(_run_patch_variant, pjobs)
+        rres = pool.map(_run_patch_variant, rjobs)
     false_alarms = []
     for vid, res in bres:
         new, err = harness.diff_against(base, res)
         if new or err:
             false_alarms.append((vid, new, err))
+    # independent behaviour-preserving refactorings: never a violation; "cannot decide" (exit 2) is acceptable and counted
+    undecided_refactors = 0
+    applied_refactors = 0
+    for vid, res in rres:
+        if res is None:
+            continue
+        applied_refactors += 1
+        new, err = harness.diff_against(base, res)
+        if new:
+            false_alarms.append((vid, new, err))
+        elif err:
+            undecided_refactors += 1
     missed = []
     caught = []
     for vid, res in mres + [(v, r) for v, r in pres if r is not None]:
@@ -87,6 +102,7 @@ def run_corpus(prop, skip=False, seed=0, jobs=16):
         "behaviour_preserving_variants": len(bres), "false_alarms": len(false_alarms),
         "breaking_variants": len(mres) + len([1 for v, r in pres if r is not None]), "reported": len(caught), "missed": len(missed),
         "variants_not_applicable_to_this_tree": skipped,
+        "independent_refactorings_applied": applied_refactors, "independent_refactorings_undecided": undecided_refactors,
         "sample_breaking": caught[:5],
     })
     if false_alarms:
